@@ -43,6 +43,8 @@ type Config struct {
 	// StoreSession: the per-request client also selects the session on its store handle (db.SetSession), as the
 	// repository's http example does, before it hands the handle to the persister
 	StoreSession bool `json:"store_session,omitempty"`
+	// FuncUsesStore: the external functions keep user data in the store handle that also holds the session
+	FuncUsesStore bool `json:"func_uses_store,omitempty"`
 }
 
 // scribbleInput overwrites a buffer that belongs to the client.
@@ -461,6 +463,9 @@ func (d *PerRequest) Request(input []byte) *Obs {
 		}
 		if d.Cfg.StoreSession {
 			store.SetSession(d.Cfg.SessionId) // every request, also on a shared handle
+		}
+		if d.Cfg.FuncUsesStore {
+			d.Res.Store = store
 		}
 		if d.Cfg.PersisterContent && !useShared {
 			ca := cache.NewCache()
